@@ -10,6 +10,7 @@ theorems plus one law of the flat spec):
                           whatever the chunk layout (aligned fast path, splitting path, back-fill past the end);
 * `get_after_set_word`    ditto for `set_word` / MSTORE;
 * `slice_after_set_slice` reading back exactly the written range returns the written bytes;
+* `get_after_append`     `append` keeps every existing byte and places the new ones right after the old end;
 * `length_after_set_slice` the size after a successful write is `max size e` (what MSIZE is computed from).
 -/
 import HalmosVerif.Props.C07
@@ -98,6 +99,15 @@ theorem length_after_set_slice (hO : Lawful O) (bv bv' : BVec C) (s e : Nat) (v 
   have hne : v.bytes O ≠ [] := by intro h0; rw [h0] at hl; simp at hl; omega
   rw [refines_length O hO bv' hwf', hfl, length_after_write _ _ _ hne, ← refines_length O hO bv h, hl]
   omega
+
+/-- **get_after_append.** `append` leaves every existing byte in place and puts the new bytes right after the old end -/
+theorem get_after_append (hO : Lawful O) (bv : BVec C) (c : C) (h : WF O bv) (i : Nat) :
+    getByte O (append O bv c) i =
+      if i < bv.length then getByte O bv i else (O.bytes c).getD (i - bv.length) Byte.zero := by
+  obtain ⟨hwf', hfl⟩ := refines_append O hO bv c h
+  rw [refines_get_byte O hO _ i hwf', refines_get_byte O hO bv i h, hfl, refines_length O hO bv h]
+  simp only [Flat.append, Flat.get, List.getD_eq_getElem?_getD, List.getElem?_append]
+  split <;> rfl
 
 /-- **get_after_set_word.** MSTORE-style 32-byte write, then any one-byte read -/
 theorem get_after_set_word (hO : Lawful O) (bv bv' : BVec C) (off : Nat) (w : C) (h : WF O bv) (hw : O.len w = 32)
